@@ -213,8 +213,11 @@ def _weave_states_in_region(
                     # create or find the loop-carried block arguments we need to generate
                     # and populate the inner_state with them:
                     created_block_args: list[BlockArgument] = []
+                    existing_block_args: list[BlockArgument] = []
                     for accel in updated_accelerators:
                         arg = find_existing_block_arg(op.body.block, accel)
+                        if arg is not None:
+                            existing_block_args.append(arg)
                         if arg is None:
                             arg = rewriter.insert_block_argument(
                                 op.body.block,
@@ -237,6 +240,15 @@ def _weave_states_in_region(
                     # add changed states as yield ops in the loop
                     yield_op = op.body.block.last_op
                     assert isinstance(yield_op, scf.YieldOp)
+
+                    # a loop that carried the state already yields what the body really ends with
+                    # (the body may have changed since the state was threaded through it)
+                    for arg in existing_block_args:
+                        assert isinstance(arg.type, accfg.StateType)
+                        yield_op.operands = tuple(
+                            after_for_state[arg.type.accelerator.data] if i == arg.index - 1 else val
+                            for i, val in enumerate(yield_op.operands)
+                        )
 
                     # make sure we modify the for loop to add the new loop carried variables
                     for arg in created_block_args:
